@@ -244,6 +244,8 @@ class Prov:
             return ("trybranch", args[0])
         if last == "key" and len(args) == 1:
             return ("call", "key", args)
+        if last in ("size_of", "align_of") and f.get("ga"):
+            return ("call", "%s<%s>" % (path, f["ga"]), args)
         # calls that receive a `&mut` borrow are not pure: keep their site identity
         for a in t["a"]:
             pl = op_place(a)
